@@ -170,6 +170,24 @@ func isPointerText(b []byte) (*lfs.Pointer, bool) {
 	if len(b) > 0 && !(bytes.Contains(b, []byte("version ")) && bytes.Contains(b, []byte("oid sha256:")) && bytes.Contains(b, []byte("size "))) {
 		return nil, false
 	}
+	// docs/spec.md: "The first key is always version", the others follow in alphabetical order — ext-*, oid, size:
+	// the first non-blank line is the version line and the LAST non-blank line is the size line
+	if len(b) > 0 {
+		var first, last string
+		for _, l := range strings.Split(string(b), "\n") {
+			l = strings.TrimSpace(l)
+			if l == "" {
+				continue
+			}
+			if first == "" {
+				first = l
+			}
+			last = l
+		}
+		if !strings.HasPrefix(first, "version ") || !strings.HasPrefix(last, "size ") {
+			return nil, false
+		}
+	}
 	p, err := lfs.DecodePointer(bytes.NewReader(b))
 	return p, err == nil && p != nil
 }
@@ -217,7 +235,10 @@ func genPayload(r *Rng, known [][]byte) ([]byte, string) {
 		return samplePointerText(r, false), "pointer.noncanonical"
 	case 3: // pointer + extra bytes / lines
 		b := samplePointerText(r, r.Bool())
-		extra := Pick(r, []string{"EXTRA DATA", "\nmore\n", "x", "extra line here\n", "\x00\x01\x02"})
+		extra := Pick(r, []string{"EXTRA DATA", "\nmore\n", "x", "extra line here\n", "\x00\x01\x02",
+			// extra lines that are themselves well-formed lines of a pointer, in a place where they do not belong
+			"ext-0-foo sha256:" + sha(r.Bytes(4)) + "\n", "ext-3-notes sha256:" + sha(r.Bytes(4)) + "\next-4-more sha256:" + sha(r.Bytes(4)) + "\n",
+			"size 5\n", "oid sha256:" + sha(r.Bytes(4)) + "\n", "version https://git-lfs.github.com/spec/v1\n"})
 		return append(b, extra...), "pointer+extra"
 	case 4: // pointer + whitespace padding up to / beyond the window
 		b := samplePointerText(r, true)
